@@ -420,13 +420,15 @@ func (s *reportSim) Run() []bool {
 
 	// run until simulation
 	for s.cycleCount < s.maxCycles {
-		aliveCount := s.RunCycle()
-
-		if nWarriors == 1 && aliveCount == 0 {
+		// stop when nobody is left to run, or when a battle between
+		// several warriors is down to a single survivor
+		if s.warriorLivingCount == 0 {
 			break
-		} else if nWarriors > 1 && aliveCount == 1 {
+		} else if nWarriors > 1 && s.warriorLivingCount == 1 {
 			break
 		}
+
+		s.RunCycle()
 	}
 
 	// collect and return results
